@@ -48,6 +48,16 @@ def items(tier, seed):
                 for k2 in range(0, n + 1):
                     for s2 in subs[1:]:
                         out.append({'reqs': [[r1, k1, allv], [r2, k2, s2]], 'fresh': n, 'numbering': 'pair'})
+    # pairs (and a triple) of requests over the SAME variable list (shared counters / different counter widths)
+    Q = 5 if tier == 'quick' else 8
+    for n in range(2, Q + 1):
+        allv = list(range(1, n + 1))
+        ks = sorted(set([0, 1, 2, n // 2, n - 1, n]))
+        for (r1, r2) in itertools.product(('EQ', 'LT', 'GT'), repeat=2):
+            for k1 in ks:
+                for k2 in ks:
+                    out.append({'reqs': [[r1, k1, allv], [r2, k2, allv]], 'fresh': n, 'numbering': 'samelist'})
+        out.append({'reqs': [['GT', 0, allv], ['LT', n, allv], ['GT', 1, allv]], 'fresh': n, 'numbering': 'samelist'})
     return out
 
 
